@@ -253,6 +253,19 @@ pub fn run(ctx: &Ctx) -> i32 {
         std::env::set_var("VERIF_EVIDENCE_PART", "replay");
         return finalize(ctx, rep);
     }
+    if let Some(n) = std::env::var("VERIF_C04_HUGE_ONLY").ok().and_then(|s| s.parse::<usize>().ok()) {
+        // debugging aid: time the huge re-plan histories one after the other
+        let mut r = Report::new();
+        for pk in PK::DISTINCT {
+            let t0 = std::time::Instant::now();
+            huge_replan::<f32>(pk, n, &mut r);
+            let t1 = t0.elapsed().as_secs_f64();
+            huge_replan::<f64>(pk, n, &mut r);
+            eprintln!("huge_replan {} n={}: f32 {:.1}s f64 {:.1}s", pk.name(), n, t1, t0.elapsed().as_secs_f64() - t1);
+        }
+        std::env::set_var("VERIF_EVIDENCE_PART", "debug");
+        return finalize(ctx, r);
+    }
     // ---- part A: construction, every n in 0..=N
     let nmax = t.pick(4096, 65536);
     let mut order: Vec<usize> = lens::dense(nmax);
@@ -303,25 +316,14 @@ pub fn run(ctx: &Ctx) -> i32 {
         rep.merge(p);
     }
     // ---- part A3: huge lengths, re-planned after every handle was dropped
-    let huge: Vec<usize> = t.pick(vec![1 << 21, 1 << 22], vec![1 << 21, 3 << 21, 1 << 23, 5 << 21, 1 << 24]);
-    let mut hj: Vec<(PK, bool, usize)> = Vec::new();
-    for &n in &huge {
-        for pk in PK::DISTINCT {
-            for is32 in [true, false] {
-                hj.push((pk, is32, n));
-            }
-        }
-    }
-    let parts = par_map(&hj, |_, &(pk, is32, n)| {
+    let huge: Vec<usize> = t.pick(vec![1 << 21, 1 << 23], vec![1 << 21, 3 << 21, 1 << 23, 5 << 21, 1 << 24]);
+    // one job per LENGTH (planners and types one after the other): many threads mapping and unmapping blocks of 64 MiB
+    // and more at the same time spend their time in the kernel
+    let parts = par_map(&huge, |_, &n| {
         let mut r = Report::new();
-        let t0 = std::time::Instant::now();
-        if is32 {
+        for pk in PK::DISTINCT {
             huge_replan::<f32>(pk, n, &mut r);
-        } else {
             huge_replan::<f64>(pk, n, &mut r);
-        }
-        if std::env::var("VERIF_TIMING").is_ok() {
-            eprintln!("huge_replan {} {} n={} took {:.1}s", pk.name(), if is32 { "f32" } else { "f64" }, n, t0.elapsed().as_secs_f64());
         }
         r
     });
@@ -393,7 +395,7 @@ pub fn run(ctx: &Ctx) -> i32 {
     rep.sample(Json::Str(key(PK::Scalar, "f64", FftDirection::Inverse, nmax, "plan_conv")));
     rep.sample(Json::Str(key(PK::Sse, "f64", FftDirection::Inverse, pmax - 1, "plan_only")));
     rep.rule = format!(
-        "huge lengths (2^21, 2^22; thorough 2^21..2^24) on one planner with every handle dropped between requests: plan, drop, plan again, other direction, half length, again; shared-planner sweeps: one planner per (scalar/sse/avx, f32/f64) asked for every n in 0..={sh} in ascending and in descending order, both directions; construction: planners {{auto,scalar,sse,avx}} x {{f32,f64}} x {{fwd,inv}} x {{plan_fft, plan_fft_forward/inverse}} x every n in 0..={nmax} on a fresh planner (len() and fft_direction() must echo the request; n=0 accepts the empty buffer through all 4 entry points; n=1 is the identity on 5 values through all 4 entry points), plus {pl} computed pool lengths up to {ph}; plan-only (hook H4, nothing constructed): {{scalar,sse,avx}} x {{f32,f64}} x every n < {pmax}, following Rader (p-1) and Bluestein (inner) sub-plans, every plan must parse and multiply out to n and every AVX butterfly base named by a plan is then constructed once. Non-trivial: n >= 2.",
+        "huge lengths (2^21, 2^23; thorough 2^21..2^24) on one planner with every handle dropped between requests: plan, drop, plan again, other direction, half length, again; shared-planner sweeps: one planner per (scalar/sse/avx, f32/f64) asked for every n in 0..={sh} in ascending and in descending order, both directions; construction: planners {{auto,scalar,sse,avx}} x {{f32,f64}} x {{fwd,inv}} x {{plan_fft, plan_fft_forward/inverse}} x every n in 0..={nmax} on a fresh planner (len() and fft_direction() must echo the request; n=0 accepts the empty buffer through all 4 entry points; n=1 is the identity on 5 values through all 4 entry points), plus {pl} computed pool lengths up to {ph}; plan-only (hook H4, nothing constructed): {{scalar,sse,avx}} x {{f32,f64}} x every n < {pmax}, following Rader (p-1) and Bluestein (inner) sub-plans, every plan must parse and multiply out to n and every AVX butterfly base named by a plan is then constructed once. Non-trivial: n >= 2.",
         sh = shared_n,
         nmax = nmax,
         pl = pool.len(),
